@@ -16,6 +16,11 @@ waveform point) hold of every value of the C++ type (`std::vector::max_size`,
 struct layout); they appear because the Model's lists are unbounded.
 -/
 import Proofs.ImplV2Lists
+import Proofs.ImplV1Roundtrip
+import Proofs.ZlibCompressLoop
+import Proofs.ZlibCompressChunks
+import Proofs.PayloadNonempty
+import Proofs.BlobLevel
 
 namespace EngineModel.Properties.C03
 open EngineModel EngineModel.Codec EngineModel.V2 EngineModel.Impl.V2
@@ -42,13 +47,15 @@ example : (⟨0x40e5888000000000, 0x4150000000000000, 1,
 
 /-- 2.x overview waveform.  `Ovw.Valid` = three bytes per point, a three-byte
 maximum point, fewer than 2^63 points (true of every C++ value). -/
-theorem C03_v2_ovw_roundtrip (v : Ovw) (extra : Bytes) (h : v.Valid) :
+theorem C03_v2_ovw_roundtrip (v : Ovw) (extra : Bytes) (h : v.Valid)
+    (hlen : 27 + v.points.length + extra.length < maxCount) :
     ∃ b, encodeOvw v extra = .ok b ∧ decodeOvw b = .ok (v, extra) := by
   refine ⟨_, encodeOvw_ok v h extra, ?_⟩
-  rw [decodeOvw_eq]
+  rw [decodeOvw_eq _ (by rw [List.length_append, ovw_enc_length, h.2.2]; omega)]
   exact liftDec_of_dec (ovw_sound v h extra)
 
-example : (⟨0x4090000000000000, [1, 2, 3, 4, 5, 6], [4, 5, 6]⟩ : Ovw).Valid := by
+example : (⟨0x4090000000000000, [1, 2, 3, 4, 5, 6], [4, 5, 6]⟩ : Ovw).Valid ∧
+    27 + (⟨0x4090000000000000, [1, 2, 3, 4, 5, 6], [4, 5, 6]⟩ : Ovw).points.length + ([] : Bytes).length < maxCount := by
   unfold Ovw.Valid maxCount; decide
 
 /-- The encodable domain of 2.x quick cues: every label at most 255 bytes. -/
@@ -99,5 +106,386 @@ theorem C03_v2_beat_total (v : Beat) (extra : Bytes) : ∃ b, encodeBeat v extra
   ⟨_, encodeBeat_ok v extra⟩
 theorem C03_v2_ovw_total (v : Ovw) (extra : Bytes) (h : v.Valid) : ∃ b, encodeOvw v extra = .ok b :=
   ⟨_, encodeOvw_ok v h extra⟩
+
+/-! ## schema 1.x (performance_data_format.cpp)
+
+The 1.x format itself defines three readings that are not the identity; the
+theorems state the read-back value exactly (`…_readback`), and the plain round
+trip on the domain where the reading is the identity:
+
+* an optional numeric field holding exactly zero is written as the "absent"
+  encoding (`normOptF`, `normOptI64`, `normOptI32`) — KNOWN FINDING
+  `v1-optional-zero-reads-absent`: the full round trip is false
+  (`…_roundtrip_counterexample`), the `_partial` theorems exclude zero;
+* a present cue/loop with (start) offset exactly −1.0 reads back as an empty
+  slot (`normCue`, `normLoop`) — the reserved encoding the property allows
+  (`C03_absent_only_reserved`);
+* the overview waveform has no opacity channel (`opaq`: read back as 255).
+-/
+section V1
+open EngineModel.V1Proofs
+
+/-! ### track data -/
+
+/-- What decode(encode v) is, for every value. -/
+theorem C03_v1_track_readback (v : Impl.V1.Track) :
+    ∃ b, Impl.V1.encodeTrack v = .ok b ∧ Impl.V1.decodeTrack b = .ok (normTrack v) := by
+  refine ⟨_, encodeTrack_ok v, ?_⟩
+  rw [V1Proofs.decodeTrack_eq, spec_track_roundtrip]; rfl
+
+/-- No optional field holds exactly zero (±0.0 for the doubles). -/
+def optNonZeroF (o : Option UInt64) : Bool :=
+  match o with
+  | some x => !F64.isZero x
+  | none => true
+
+theorem optNonZeroF_spec {o : Option UInt64} (h : optNonZeroF o = true) :
+    ∀ x, o = some x → F64.isZero x = false := by
+  intro x hx; subst hx
+  simpa [optNonZeroF] using h
+
+def trackNoZero (v : Impl.V1.Track) : Prop :=
+  optNonZeroF v.sampleRate = true ∧ v.sampleCount ≠ some 0 ∧ optNonZeroF v.loudness = true ∧ v.key ≠ some 0
+
+instance (v : Impl.V1.Track) : Decidable (trackNoZero v) := by unfold trackNoZero; infer_instance
+
+/- Full statement (FALSE of the code, known finding):
+     ∀ v, ∃ b, Impl.V1.encodeTrack v = .ok b ∧ Impl.V1.decodeTrack b = .ok v -/
+theorem C03_v1_track_roundtrip_partial (v : Impl.V1.Track) (h : trackNoZero v) :
+    ∃ b, Impl.V1.encodeTrack v = .ok b ∧ Impl.V1.decodeTrack b = .ok v := by
+  obtain ⟨b, h1, h2⟩ := C03_v1_track_readback v
+  refine ⟨b, h1, ?_⟩
+  rw [h2]
+  obtain ⟨a1, a2, a3, a4⟩ := h
+  cases v with
+  | mk sr sc ld k =>
+    simp only [normTrack, normOptF_id sr (optNonZeroF_spec a1), normOptI64_id sc a2,
+      normOptF_id ld (optNonZeroF_spec a3), normOptI32_id k a4]
+
+example : trackNoZero ⟨some 0x40e5888000000000, some 255, none, some 7⟩ := by decide
+
+/-- The witness replayed on the real library: `enc v1.track 3ff0000000000000 255 none 0`. -/
+theorem C03_v1_track_roundtrip_counterexample :
+    ∃ v b, Impl.V1.encodeTrack v = .ok b ∧ Impl.V1.decodeTrack b ≠ .ok v :=
+  ⟨⟨some 0x3ff0000000000000, some 255, none, some 0⟩, _, rfl, by decide⟩
+
+theorem C03_v1_track_total (v : Impl.V1.Track) : ∃ b, Impl.V1.encodeTrack v = .ok b :=
+  ⟨_, encodeTrack_ok v⟩
+
+/-! ### beat data -/
+
+/-- The encodable domain: each grid is empty or has 2..32768 markers, strictly increasing in
+index (by less than 2^31) and in sample offset (`validate_beatgrid`). -/
+def encodableBeat1 (v : Impl.V1.Beat) : Prop := V1.gridOk v.dflt = true ∧ V1.gridOk v.adj = true
+instance (v : Impl.V1.Beat) : Decidable (encodableBeat1 v) := by unfold encodableBeat1; infer_instance
+
+theorem C03_v1_beat_readback (v : Impl.V1.Beat) (h : encodableBeat1 v) :
+    ∃ b, Impl.V1.encodeBeat v = .ok b ∧
+      Impl.V1.decodeBeat b = .ok ⟨normOptF v.sampleRate, normOptF v.sampleCount, v.dflt, v.adj⟩ :=
+  ⟨_, encodeBeat_ok v h.1 h.2, decodeBeat_of_spec _ _ (spec_beat_roundtrip v h.1 h.2)⟩
+
+def beatNoZero (v : Impl.V1.Beat) : Prop :=
+  optNonZeroF v.sampleRate = true ∧ optNonZeroF v.sampleCount = true
+
+instance (v : Impl.V1.Beat) : Decidable (beatNoZero v) := by unfold beatNoZero; infer_instance
+
+/- Full statement (FALSE of the code, same known finding):
+     ∀ v, encodableBeat1 v → ∃ b, Impl.V1.encodeBeat v = .ok b ∧ Impl.V1.decodeBeat b = .ok v -/
+theorem C03_v1_beat_roundtrip_partial (v : Impl.V1.Beat) (h : encodableBeat1 v) (hz : beatNoZero v) :
+    ∃ b, Impl.V1.encodeBeat v = .ok b ∧ Impl.V1.decodeBeat b = .ok v := by
+  obtain ⟨b, h1, h2⟩ := C03_v1_beat_readback v h
+  refine ⟨b, h1, ?_⟩
+  rw [h2]
+  cases v with
+  | mk sr sc d a => simp only [normOptF_id sr (optNonZeroF_spec hz.1), normOptF_id sc (optNonZeroF_spec hz.2)]
+
+example : encodableBeat1 ⟨some 0x40e5888000000000, none,
+    [⟨0, 0⟩, ⟨4, 0x40d5888000000000⟩, ⟨0x7fffffff, 0x40e5888000000000⟩], []⟩ ∧
+    beatNoZero ⟨some 0x40e5888000000000, none,
+    [⟨0, 0⟩, ⟨4, 0x40d5888000000000⟩, ⟨0x7fffffff, 0x40e5888000000000⟩], []⟩ := by decide
+
+theorem C03_v1_beat_roundtrip_counterexample :
+    ∃ v b, encodableBeat1 v ∧ Impl.V1.encodeBeat v = .ok b ∧ Impl.V1.decodeBeat b ≠ .ok v :=
+  ⟨⟨some 0x8000000000000000, none, [], []⟩, _, by decide, rfl, by decide⟩
+
+/-- A grid outside the domain (one marker, more than 32768, not strictly increasing) is rejected. -/
+theorem C03_v1_beat_reject (v : Impl.V1.Beat) (h : ¬ encodableBeat1 v) :
+    Impl.V1.encodeBeat v = .throw .invalid_argument := encodeBeat_reject v h
+
+example : ¬ encodableBeat1 ⟨none, none, [⟨0, 0⟩], []⟩ := by decide
+example : ¬ encodableBeat1 ⟨none, none, [⟨4, 0⟩, ⟨4, 0x40d5888000000000⟩], []⟩ := by decide
+
+/-! ### quick cues -/
+
+/-- Exactly 8 slots; every present cue has a label of 1..255 bytes. -/
+def encodableCues1 (v : Impl.V1.Cues) : Prop := v.cues.length = 8 ∧ v.cues.all V1.cueSlotOk = true
+instance (v : Impl.V1.Cues) : Decidable (encodableCues1 v) := by unfold encodableCues1; infer_instance
+
+theorem C03_v1_cues_readback (v : Impl.V1.Cues) (h : encodableCues1 v) :
+    ∃ b, Impl.V1.encodeCues v = .ok b ∧
+      Impl.V1.decodeCues b = .ok ⟨v.cues.map normCue, v.adjMain, v.defMain⟩ := by
+  refine ⟨_, encodeCues_ok v h.1 h.2, ?_⟩
+  rw [V1Proofs.decodeCues_eq, spec_cues_roundtrip v h.1 h.2]; rfl
+
+/-- No present cue carries the reserved offset −1.0. -/
+def noReservedCue (v : Impl.V1.Cues) : Prop := ∀ q, some q ∈ v.cues → q.off ≠ F64.negOne
+instance (v : Impl.V1.Cues) : Decidable (noReservedCue v) := by
+  unfold noReservedCue
+  exact decidable_of_iff (∀ s ∈ v.cues, ∀ q, s = some q → q.off ≠ F64.negOne)
+    ⟨fun h q hq => h _ hq q rfl, fun h s hs q e => h q (e ▸ hs)⟩
+
+theorem C03_v1_cues_roundtrip (v : Impl.V1.Cues) (h : encodableCues1 v) (hr : noReservedCue v) :
+    ∃ b, Impl.V1.encodeCues v = .ok b ∧ Impl.V1.decodeCues b = .ok v := by
+  obtain ⟨b, h1, h2⟩ := C03_v1_cues_readback v h
+  refine ⟨b, h1, ?_⟩
+  rw [h2]
+  have : v.cues.map normCue = v.cues := by
+    conv => rhs; rw [← List.map_id v.cues]
+    apply List.map_congr_left
+    intro s hs
+    cases s with
+    | none => rfl
+    | some q => exact normCue_some q (hr q hs)
+  cases v with
+  | mk c a d => simp only at this; simp only [this]
+
+/-- Never `ok` with other bytes, never undefined behaviour: more or fewer than 8 slots, an empty
+label, a label over 255 bytes all end in an exception. -/
+theorem C03_v1_cues_reject (v : Impl.V1.Cues) (h : ¬ encodableCues1 v) :
+    ∃ e, Impl.V1.encodeCues v = .throw e := encodeCues_reject v h
+
+example : encodableCues1 ⟨[some ⟨[67, 117, 101], 0x40f0000000000000, ⟨255, 1, 2, 3⟩⟩, none, none, none,
+    none, none, none, some ⟨[0xff], 0xbff0000000000000, ⟨0, 0, 0, 0⟩⟩], 0, 0x8000000000000000⟩ := by decide
+example : ¬ encodableCues1 ⟨[none, none, none], 0, 0⟩ := by decide
+example : ¬ encodableCues1 ⟨[some ⟨[], 0, ⟨0, 0, 0, 0⟩⟩, none, none, none, none, none, none, none], 0, 0⟩ := by
+  decide
+
+/-! ### loops -/
+
+def encodableLoops1 (v : Impl.V1.Loops) : Prop := v.all V1.loopSlotOk = true
+instance (v : Impl.V1.Loops) : Decidable (encodableLoops1 v) := by unfold encodableLoops1; infer_instance
+
+theorem C03_v1_loops_readback (v : Impl.V1.Loops) (hrep : v.length < maxCount) (h : encodableLoops1 v) :
+    ∃ b, Impl.V1.encodeLoops v = .ok b ∧ Impl.V1.decodeLoops b = .ok (v.map normLoop) := by
+  refine ⟨_, encodeLoops_ok v h, ?_⟩
+  rw [V1Proofs.decodeLoops_eq, spec_loops_roundtrip v hrep h]; rfl
+
+def noReservedLoop (v : Impl.V1.Loops) : Prop := ∀ l, some l ∈ v → l.start ≠ F64.negOne
+instance (v : Impl.V1.Loops) : Decidable (noReservedLoop v) := by
+  unfold noReservedLoop
+  exact decidable_of_iff (∀ s ∈ v, ∀ l, s = some l → l.start ≠ F64.negOne)
+    ⟨fun h l hl => h _ hl l rfl, fun h s hs l e => h l (e ▸ hs)⟩
+
+theorem C03_v1_loops_roundtrip (v : Impl.V1.Loops) (hrep : v.length < maxCount) (h : encodableLoops1 v)
+    (hr : noReservedLoop v) :
+    ∃ b, Impl.V1.encodeLoops v = .ok b ∧ Impl.V1.decodeLoops b = .ok v := by
+  obtain ⟨b, h1, h2⟩ := C03_v1_loops_readback v hrep h
+  refine ⟨b, h1, ?_⟩
+  rw [h2]
+  have : v.map normLoop = v := by
+    conv => rhs; rw [← List.map_id v]
+    apply List.map_congr_left
+    intro s hs
+    cases s with
+    | none => rfl
+    | some l => exact normLoop_some l (hr l hs)
+  rw [this]
+
+theorem C03_v1_loops_reject (v : Impl.V1.Loops) (h : ¬ encodableLoops1 v) :
+    ∃ e, Impl.V1.encodeLoops v = .throw e := by
+  apply V1Proofs.encodeLoops_reject
+  unfold encodableLoops1 at h
+  cases hh : v.all V1.loopSlotOk
+  · rfl
+  · exact absurd hh h
+
+example : encodableLoops1 [some ⟨[76], 0x40f0000000000000, 0x4100000000000000, ⟨255, 9, 8, 7⟩⟩, none] ∧
+    noReservedLoop [some ⟨[76], 0x40f0000000000000, 0x4100000000000000, ⟨255, 9, 8, 7⟩⟩, none] := by decide
+example : ¬ encodableLoops1 [some ⟨[], 0, 0, ⟨0, 0, 0, 0⟩⟩] := by decide
+
+/-- The reserved empty-slot encodings are the only values that read back absent: a present cue
+(loop) reads back absent iff its (start) offset is the bit pattern of −1.0, and an absent slot
+stays absent. -/
+theorem C03_absent_only_reserved :
+    (∀ q : Impl.V1.HotCue, normCue (some q) = none ↔ q.off = F64.negOne) ∧
+    (∀ l : Impl.V1.LoopV, normLoop (some l) = none ↔ l.start = F64.negOne) ∧
+    (∀ q : Impl.V1.HotCue, q.off ≠ F64.negOne → normCue (some q) = some q) ∧
+    (∀ l : Impl.V1.LoopV, l.start ≠ F64.negOne → normLoop (some l) = some l) ∧
+    normCue none = none ∧ normLoop none = none :=
+  ⟨normCue_none_iff, normLoop_none_iff, normCue_some, normLoop_some, rfl, rfl⟩
+
+/-! ### waveforms -/
+
+/-- Overview waveform: the three value channels come back; the format has no opacity channel and
+the decoder supplies 255. -/
+theorem C03_v1_ovw_readback (v : Impl.V1.Wave) (hrep : 27 + 3 * v.entries.length < maxCount) :
+    ∃ b, Impl.V1.encodeOvw v = .ok b ∧ Impl.V1.decodeOvw b = .ok ⟨v.spe, v.entries.map opaq⟩ := by
+  obtain ⟨b, hs, hi⟩ := encodeOvw_ok v
+  refine ⟨b, hi, ?_⟩
+  have hb : b.length = 27 + 3 * v.entries.length := Impl.V2.writeInto_length hi
+  rw [V1Proofs.decodeOvw_eq b (by omega), spec_ovw_roundtrip v (by omega) b hs]; rfl
+
+theorem C03_v1_ovw_roundtrip (v : Impl.V1.Wave) (hrep : 27 + 3 * v.entries.length < maxCount)
+    (hop : ∀ e ∈ v.entries, e.lo = 255 ∧ e.mo = 255 ∧ e.ho = 255) :
+    ∃ b, Impl.V1.encodeOvw v = .ok b ∧ Impl.V1.decodeOvw b = .ok v := by
+  obtain ⟨b, h1, h2⟩ := C03_v1_ovw_readback v hrep
+  refine ⟨b, h1, ?_⟩
+  rw [h2]
+  have : v.entries.map opaq = v.entries := by
+    conv => rhs; rw [← List.map_id v.entries]
+    apply List.map_congr_left
+    intro e he
+    obtain ⟨a, b, c⟩ := hop e he
+    cases e with
+    | mk lv mv hv lo mo ho => simp only at a b c; subst a b c; rfl
+  rw [this]
+
+theorem C03_v1_hires_roundtrip (v : Impl.V1.Wave) (hrep : 30 + 6 * v.entries.length < maxCount) :
+    ∃ b, Impl.V1.encodeHires v = .ok b ∧ Impl.V1.decodeHires b = .ok v := by
+  obtain ⟨b, hs, hi⟩ := encodeHires_ok v
+  refine ⟨b, hi, ?_⟩
+  have hb : b.length = 30 + 6 * v.entries.length := Impl.V2.writeInto_length hi
+  rw [V1Proofs.decodeHires_eq b (by omega), spec_hires_roundtrip v (by omega) b hs]; rfl
+
+example : 30 + 6 * (⟨0x4090000000000000, [⟨1, 2, 3, 255, 255, 255⟩, ⟨9, 8, 7, 255, 255, 255⟩]⟩ : Impl.V1.Wave).entries.length
+    < maxCount := by decide
+
+end V1
+
+/-! ## the framing on the way out: `zlib_compress` drops nothing
+
+`Impl/ZlibCompress.lean` mirrors the prefix and the two nested `do … while` loops of `zlib_compress`
+over an abstract `deflate` oracle.  For every oracle honouring the explicit call contract
+`DContract` (sizes, a finite output potential, "input is only left behind when the output buffer was
+filled", "a `Z_FINISH` call that did not fill the buffer returns `Z_STREAM_END`"; a structure
+parameter — not an axiom), every initial live stream state and every payload: the loops terminate
+within an explicit fuel bound linear in the payload, the blob is the 4-byte length followed by ALL
+output of ALL calls in order, every payload byte was consumed by some call, and the last call was a
+`Z_FINISH` call that reported the end of the stream — i.e. what is written is a complete stream.
+The tie replays the recorded `deflate()` calls of the real library through this Model on every run. -/
+section Compress
+open EngineModel.Impl.Zlib
+
+theorem C03_compress_complete {σ : Type} (o : DOracle σ) (c : DContract o) (s0 : σ) (hs0 : c.live s0)
+    (buf : Bytes) (hne : buf ≠ []) (fuel : Nat) (hf : cFuelBound c s0 buf.length ≤ fuel) :
+    ∃ blob log, compress o s0 fuel buf = .ok (blob, log) ∧
+      blob = lenPrefix buf.length ++ log.flatMap (·.out) ∧
+      (log.map (·.consumed)).sum = buf.length ∧
+      ∃ d, log.getLast? = some d ∧ d.flush = .finish ∧ d.ret = .streamEnd :=
+  compress_complete o c s0 hs0 buf hne fuel hf
+
+/-- The hypothesis `buf ≠ []` is exactly what the code needs: `auto* ptr = &uncompressed[0]` on an
+empty vector is undefined (`operator[]` precondition; an abort in the `_GLIBCXX_ASSERTIONS` build of
+the harness, replayed on every run as `ztrace -`) … -/
+theorem C03_compress_empty_ub {σ : Type} (o : DOracle σ) (s0 : σ) (fuel : Nat) :
+    compress o s0 fuel [] = .ub .oob_index := compress_empty o s0 fuel
+
+/-- … and no codec reaches it: every payload one of the nine compressed codecs hands to
+`zlib_compress` has at least 25 bytes. -/
+theorem C03_compress_input_nonempty :
+    (∀ v extra b, Impl.V2.encodeTrack v extra = .ok b → 44 ≤ b.length) ∧
+    (∀ v extra b, Impl.V2.encodeBeat v extra = .ok b → 33 ≤ b.length) ∧
+    (∀ v extra b, Impl.V2.encodeCues v extra = .ok b → 25 ≤ b.length) ∧
+    (∀ v extra b, Impl.V2.encodeOvw v extra = .ok b → 27 ≤ b.length) ∧
+    (∀ v b, Impl.V1.encodeTrack v = .ok b → b.length = 28) ∧
+    (∀ v b, Impl.V1.encodeBeat v = .ok b → 33 ≤ b.length) ∧
+    (∀ v b, Impl.V1.encodeCues v = .ok b → 129 ≤ b.length) ∧
+    (∀ v b, Impl.V1.encodeOvw v = .ok b → 27 ≤ b.length) ∧
+    (∀ v b, Impl.V1.encodeHires v = .ok b → 30 ≤ b.length) :=
+  ⟨fun _ _ _ h => Impl.V2.encodeTrack_len h, fun _ _ _ h => Impl.V2.encodeBeat_len h,
+   fun _ _ _ h => Impl.V2.encodeCues_len h, fun _ _ _ h => Impl.V2.encodeOvw_len h,
+   fun _ _ h => Impl.V1.encodeTrack_len h, fun _ _ h => Impl.V1.encodeBeat_len h,
+   fun _ _ h => Impl.V1.encodeCues_len h, fun _ _ h => Impl.V1.encodeOvw_len h,
+   fun _ _ h => Impl.V1.encodeHires_len h⟩
+
+/-- The contract is satisfiable and the fuel bound explicit (pass-through oracle: `4·n + 2`). -/
+example : cFuelBound storeContract () 100000 = 400002 := by decide
+example : ([0x2a] : Bytes) ≠ [] := by decide
+
+/-- Repeating the inner loop "until the input chunk is consumed" instead of "while the output
+buffer was filled" is wrong for an oracle that honours the same contract: with more than one
+buffer of output pending at `Z_FINISH`, all input is consumed, one buffer is collected, the loop
+leaves, and the stream is left unfinished (output dropped). -/
+theorem C03_compress_avail_in_condition_counterexample (fuel : Nat) :
+    ∃ acc d1 d2, cloopBad bufOracle (List.replicate (chunk + 1) 0) (fuel + 4) ⟨[], false⟩ 0 .outer [] []
+        = .ok (acc, [d1, d2]) ∧
+      acc.length = chunk ∧ d1.consumed + d2.consumed = chunk + 1 ∧ d2.flush = .finish ∧ d2.ret = .ok :=
+  compress_avail_in_condition_drops_output fuel
+
+/-! ### which call gets `Z_FINISH`: the input-chunking decision, for every payload length
+
+`chunkPlan n` (Proofs/ZlibCompressChunks.lean) is the C++ decision
+`if (ptr + chunk_size < end) {chunk_size, Z_NO_FLUSH} else {end - ptr, Z_FINISH}` … `while (flush != Z_FINISH)`
+as a function of the payload length alone.  The next theorems hold for EVERY oracle (they are about
+control flow, no contract is needed), every fuel and every payload length — 1 and exact multiples of the
+chunk size included (the empty payload never returns: `C03_compress_empty_ub`). -/
+
+/-- If the Model of `zlib_compress` returns, its recorded calls follow `chunkPlan (payload length)`
+window by window (`Sched`: per window a non-empty run of calls with that window's flush mode, the first
+seeing the whole window, every call but the last of a run having filled the output buffer). -/
+theorem C03_compress_chunk_schedule {σ : Type} (o : DOracle σ) (s0 : σ) (fuel : Nat) (buf : Bytes)
+    (blob : Bytes) (log : List DCall) (h : compress o s0 fuel buf = .ok (blob, log)) :
+    Sched (chunkPlan buf.length) log :=
+  compress_sched o s0 fuel buf blob log h
+
+/-- The plan in closed form and at the boundaries: `(n−1)/chunk` full `Z_NO_FLUSH` windows then ONE
+`Z_FINISH` window; an exact multiple `k·chunk` (k ≥ 1) ends with a FULL `Z_FINISH` window, `k·chunk+1`
+with a 1-byte one, `k·chunk−1` with one a byte short; the empty payload is one empty `Z_FINISH` window. -/
+theorem C03_compress_chunk_plan (n k : Nat) (hk : 0 < k) :
+    chunkPlan n = List.replicate ((n - 1) / chunk) (Flush.noFlush, chunk) ++ [(Flush.finish, finalChunkLen n)] ∧
+    ((chunkPlan n).map (·.2)).sum = n ∧
+    chunkPlan 0 = [(Flush.finish, 0)] ∧
+    chunkPlan (k * chunk - 1) = List.replicate (k - 1) (Flush.noFlush, chunk) ++ [(Flush.finish, chunk - 1)] ∧
+    chunkPlan (k * chunk) = List.replicate (k - 1) (Flush.noFlush, chunk) ++ [(Flush.finish, chunk)] ∧
+    chunkPlan (k * chunk + 1) = List.replicate k (Flush.noFlush, chunk) ++ [(Flush.finish, 1)] :=
+  ⟨chunkPlan_eq n, chunkPlan_sum n, chunkPlan_last (by decide), chunkPlan_mul_pred k hk, chunkPlan_mul k hk,
+   chunkPlan_mul_succ k hk⟩
+
+example : chunkPlan 49152 = [(.noFlush, 16384), (.noFlush, 16384), (.finish, 16384)] :=
+  chunkPlan_mul 3 (by decide)
+
+/-- **The last window, and only the last window, carries `Z_FINISH`, for every payload length**: the
+log is `pre ++ fin`, every call of `pre` is `Z_NO_FLUSH`, `fin` is the non-empty run of `Z_FINISH`
+calls, and its first call is handed exactly `finalChunkLen n` bytes. -/
+theorem C03_compress_finish_only_last {σ : Type} (o : DOracle σ) (s0 : σ) (fuel : Nat) (buf : Bytes)
+    (blob : Bytes) (log : List DCall) (h : compress o s0 fuel buf = .ok (blob, log)) :
+    ∃ pre fin, log = pre ++ fin ∧
+      (∀ d ∈ pre, d.flush = .noFlush) ∧ (∀ d ∈ fin, d.flush = .finish) ∧ fin ≠ [] ∧
+      Sched (List.replicate (fullChunks buf.length) (.noFlush, chunk)) pre ∧
+      Run .finish (finalChunkLen buf.length) fin ∧
+      ∃ d, fin.head? = some d ∧ d.availIn = finalChunkLen buf.length :=
+  compress_finish_only_last o s0 fuel buf blob log h
+
+/-- non-vacuity: the hypothesis is met for every payload by a contract-honouring oracle -/
+example (buf : Bytes) (hne : buf ≠ []) :
+    ∃ blob log, compress storeOracle () (4 * buf.length + 2) buf = .ok (blob, log) :=
+  compress_ok storeOracle storeContract () trivial buf hne _ (by simp only [cFuelBound, storeContract]; omega)
+
+/-- "A chunk is final iff it is shorter than the chunk size; loop while `remaining > 0`" (seeded change
+C02-1) is the wrong decision: on a payload of exactly one chunk, for an oracle honouring the whole
+contract, those loops return without a single `Z_FINISH` call and no call reports `Z_STREAM_END`. -/
+theorem C03_compress_remaining_counter_counterexample (fuel : Nat) :
+    ∃ acc log, cloopRem storeOracle (List.replicate chunk 0) (fuel + 3) () 0 .outer [] []
+        = .ok (acc, log) ∧
+      (∀ d ∈ log, d.flush = .noFlush) ∧ (log.map (·.consumed)).sum = chunk ∧
+      ∀ d ∈ log, d.ret ≠ .streamEnd :=
+  compress_remaining_counter_counterexample fuel
+
+/-- **`zlib_uncompress (zlib_compress p) = p`** for the models of the two loop pairs: for every deflate
+oracle honouring `DContract` and every payload of 1 byte … 2 GiB, the compress loops return a blob, and if
+the independent Lean inflate inverts the bytes that oracle produced for `p` (the joint contract between the
+two directions of zlib; for libz it is sampled on every run — every blob the library writes is inflated by
+the Lean inflate in the C02 tie), the Model of `zlib_uncompress` returns `p` from that blob.  By
+`C05_uncompress_replay_eq_unz` the same holds for the loop model driven by the Lean inflate. -/
+theorem C03_uncompress_compress {σ : Type} (o : DOracle σ) (c : DContract o) (s0 : σ) (hs0 : c.live s0)
+    (p : Bytes) (hne : p ≠ []) (hlt : p.length < 2147483648) (fuel : Nat)
+    (hf : cFuelBound c s0 p.length ≤ fuel) :
+    ∃ blob log, compress o s0 fuel p = .ok (blob, log) ∧
+      ((∃ rest, EngineModel.Zlib.inflate (log.flatMap (·.out)) = some (p, rest)) → unz blob = .ok p) :=
+  uncompress_compress o c s0 hs0 p hne hlt fuel hf
+
+example : ([7] : Bytes) ≠ [] ∧ ([7] : Bytes).length < 2147483648 := by decide
+
+end Compress
 
 end EngineModel.Properties.C03
